@@ -98,6 +98,8 @@ def drive(case, rng, profile, test_ids=True, mutate=False, max_calls=80, script=
         admin()
     if junk_p and rng.random() < junk_p:
         do(("finish", 0))                       # premature: nothing announced yet
+    if junk_p and rng.random() < junk_p:
+        do(("junk", rng.choice(["start_event", "set_place_real", "empty"])))   # internal types from outside
     if not do(("start",)):
         return out
     n = 0
